@@ -84,3 +84,50 @@ func FOLD_Folder(h *rt.H) {
 	h.Assert("no-error", err == nil)
 	h.Assert("custom-folder-used", ev.Equal(ev.Normalise(rec.Events), want))
 }
+
+type inlIfaceT struct {
+	A int8
+	I interface{} `struct:",inline"`
+	Z int8
+}
+
+// FOLD_InlineIface (C12, C09, C16): a struct with an inlined interface member
+// holding a struct, a pointer to a struct or a map: the members of the dynamic value
+// appear as members of the outer object, in place; a failing visitor gets its own
+// error back, whichever event it fails at (also inside the inlined part).
+func FOLD_InlineIface(h *rt.H) {
+	a, z := int8(h.U8("a")), int8(h.U8("z"))
+	v := inlIfaceT{A: a, Z: z}
+	want := []ev.Event{{K: ev.ObjStart}, {K: ev.Key, Str: []byte("a")}, sNum(int64(a))}
+	switch h.Choose("dyn", 0, 3) {
+	case 0:
+		in, evs := tInBuild(h)
+		v.I = in
+		want = append(want, evs...)
+	case 1:
+		in, evs := tInBuild(h)
+		v.I = &in
+		want = append(want, evs...)
+	case 2:
+		x := int8(h.U8("mx"))
+		v.I = map[string]interface{}{"m": x}
+		want = append(want, ev.Event{K: ev.Key, Str: []byte("m")}, sNum(int64(x)))
+	case 3:
+		x := int8(h.U8("mx"))
+		v.I = map[string]int8{"m": x}
+		want = append(want, ev.Event{K: ev.Key, Str: []byte("m")}, sNum(int64(x)))
+	}
+	want = append(want, ev.Event{K: ev.Key, Str: []byte("z")}, sNum(int64(z)), ev.Event{K: ev.ObjEnd})
+	var rec ev.Recorder
+	err := gotype.Fold(v, &rec)
+	h.Assert("no-error", err == nil)
+	h.Assert("events", ev.Equal(ev.Normalise(rec.Events), want))
+	h.Assert("contract", ev.Contract(rec.Events) == "")
+	if len(rec.Events) > 0 {
+		k := h.Choose("failAt", 1, len(rec.Events))
+		frec := ev.Recorder{FailAt: k}
+		ferr := gotype.Fold(v, &frec)
+		h.Assert("error-returned", ferr == ev.ErrInjected)
+		h.Assert("no-event-after", frec.After == 0)
+	}
+}
